@@ -45,7 +45,7 @@ ANCHORS = [
     ('vivarium/library/dict_utils.py', ['deep_merge']),
     ('vivarium/core/engine.py', ['Engine._make_store']),
 ]
-BUDGET = {'quick': 700, 'thorough': 12000}
+BUDGET = {'quick': 3000, 'thorough': 40000}
 RULE = ('cases: (gen) composites of 1-6 probe processes/steps in nested groups whose ports share '
         'variables through generated topologies (tuple paths with "..", `_path` dicts, nested '
         'port schemas, `*` globs with sub-schemas) x partial initial states (falsy values 0, '
@@ -1390,10 +1390,25 @@ def gen_case(rng, malformed=False):
 
 
 def _split_state(rng, init):
+    """composite `state` and config `initial_state`: disjoint parts, and some entries given by
+    both with different values (the config's wins)"""
     a, b = {}, {}
     for k, v in init.items():
-        (a if rng.random() < 0.5 else b)[k] = v
+        r = rng.random()
+        if r < 0.35:
+            a[k] = v
+        elif r < 0.7:
+            b[k] = v
+        else:
+            a[k] = _relabel(v)
+            b[k] = v
     return a, b
+
+
+def _relabel(v):
+    if isinstance(v, dict):
+        return {k: _relabel(x) for k, x in v.items()}
+    return 77
 
 
 def gen_leaf_case(rng):
